@@ -705,7 +705,7 @@ theorem buffer_bounded_along (hE : C01.EnvOK env G) (keys : List KeyEvent) :
   | nil => intro e hi hB; exact ⟨e, rfl, hi, hB⟩
   | cons ev keys ih =>
     intro e hi hB
-    obtain ⟨e1, h1, hi1⟩ := C01.apply_ok hE hi (.key ev) trivial (fun h => h) trivial
+    obtain ⟨e1, h1, hi1⟩ := C01.apply_ok hE hi (.key ev) trivial (fun h => h)
     have h1' : (e.processKey env ev).map (·.1) = .ok e1 := h1
     obtain ⟨⟨e1', b⟩, hp, hx⟩ := map_ok h1'
     have hx : e1' = e1 := hx
@@ -761,7 +761,7 @@ theorem eng_key_inserts_linked (hE : C01.EnvOK env G) {e : Editor D L} (hi : C01
     refine ⟨e', .absorb, h1, h2, h5, ?_, Or.inl ⟨hlt, rfl, h4, h3⟩⟩
     exact Link.bounded_after_key_linked hE hi h1 h2 (Or.inl rfl)
   · have heq : e.shared.com.len = e.shared.options.autoCommitThreshold := Nat.le_antisymm (hB hs) hge
-    obtain ⟨e1, h1, _⟩ := C01.apply_ok hE hi (.key ev) trivial (fun h => h) trivial
+    obtain ⟨e1, h1, _⟩ := C01.apply_ok hE hi (.key ev) trivial (fun h => h)
     have h1' : (e.processKey env ev).map (·.1) = .ok e1 := h1
     obtain ⟨⟨e', b⟩, hp, _⟩ := map_ok h1'
     obtain ⟨sh, st, hd, h2⟩ := processKey_split env hp
